@@ -484,7 +484,7 @@ func runC20(r *mon.Run, replay string) {
 		}
 		rounds := r.Pick(150, 2000)
 		var wg sync.WaitGroup
-		var bad atomic.Int64
+		var bad, panics atomic.Int64
 		var firstBad atomic.Value
 		for g := 0; g < 8; g++ {
 			wg.Add(1)
@@ -495,7 +495,13 @@ func runC20(r *mon.Run, replay string) {
 						jb := jobs[(ji+g)%len(jobs)]
 						for ix := uint64(0); ix < 32; ix++ {
 							sd := jb.seed
-							k := wallet.KeyFromSeed(&sd, ix+uint64(g%2)*1000)
+							var k []byte
+							if pn := mon.Guard(func() { k = wallet.KeyFromSeed(&sd, ix+uint64(g%2)*1000) }); pn != nil {
+								if panics.Add(1) == 1 {
+									firstBad.Store(c20Case{Kind: "key-concurrent-panic: " + fmt.Sprint(pn), Entropy: hex.EncodeToString(jb.ent[:]), Index: ix + uint64(g%2)*1000})
+								}
+								continue
+							}
 							if !bytes.Equal(k, refKey(seedOf(jb.ent), ix+uint64(g%2)*1000)) {
 								if bad.Add(1) == 1 {
 									firstBad.Store(c20Case{Kind: "key-concurrent", Entropy: hex.EncodeToString(jb.ent[:]), Index: ix + uint64(g%2)*1000})
@@ -521,7 +527,9 @@ func runC20(r *mon.Run, replay string) {
 		wg.Wait()
 		r.Eval()
 		r.Count("concurrent_key_derivations", 8*rounds*len(jobs)*32)
-		if n := bad.Load(); n > 0 {
+		if n := panics.Load(); n > 0 {
+			r.Violation("key-derivation-panic:concurrent", fmt.Sprintf("%d key derivations panicked while other goroutines were deriving keys", n), firstBad.Load(), nil)
+		} else if n := bad.Load(); n > 0 {
 			r.Violation("key-derivation:concurrent", fmt.Sprintf("%d derivations made while other goroutines were deriving keys differ from the reference", n), firstBad.Load(), nil)
 		}
 	}
